@@ -128,6 +128,14 @@ def check_state(rep, st, sels, stats, only=None):
         if not explained:
             raise MachineryError(f"state {st.sid} has non-finite outputs on the query rows: not usable for C18")
         return
+    # ---- a long query (hundreds of rows): the same rows repeated must get the same answers, whatever the array length ---
+    reps = 150 if len(Q) <= 5 else 60
+    big = np.tile(Q, (reps, 1))
+    for name, (fn, exact) in outs.items():
+        if name in full and not only:
+            cmp_.check(name, "long-query", lambda: fn(big.copy()), np.concatenate([full[name]] * reps, axis=0), exact,
+                       f"the query array tiled {reps} times ({len(big)} rows)", {"Q": Q.tolist(), "reps": reps}, tags=("long-query",),
+                       key=f"{st.sid}|{name}|long")
     # ---- every selection enumerated by TLC ------------------------------------------------------------------
     for case in sels:
         sel0 = np.array(case["sel"], dtype=np.intp) - 1
